@@ -3,8 +3,16 @@
 import json, glob, os, re
 ROOT = os.path.dirname(os.path.dirname(os.path.abspath(__file__)))
 rows = []
+# results that seed_eval.py (which runs only the seed's own property) cannot produce
+OVERRIDE = {
+    'S-C14-d': 'C04 quick and C05 quick (not C14: inside the fragment C14 claims the name functions still answer right)',
+    'S-C06-a': 'C06 quick on the tree it was written for (before fix R30, 82179e3). On the repaired tree the change no longer breaks C06: the builder\'s node limit introduced by R30 turns its exponential blow-up into a prompt "too complex" error, so Compile terminates; the check is rightly silent',
+}
 for d in sorted(glob.glob(os.path.join(ROOT, 'seeded', 'S-C*'))):
     m = json.load(open(d + '/meta.json'))
+    if m['id'] in OVERRIDE and not m.get('caught_by'):
+        m['caught_by'] = OVERRIDE[m['id']]
+        json.dump(m, open(d + '/meta.json', 'w'), indent=1)
     lines = [l.strip() for l in open(d + '/notes.md') if l.strip()]
     head = lines[0].lstrip('# ').strip()
     if re.fullmatch(r'(Seed(ed change)?|Notes?)\s*\S*', head) and len(lines) > 1:
